@@ -85,24 +85,54 @@ def build_template(name):
     raise MachineryError(f"unknown template {name}")
 
 
+TEMPLATE_SIZE = {"id": 3, "nestext": 7, "loop": 4, "cond": 7, "cfg": 5}
+
+
 def make_stepper(root_inputs):
-    """a fresh root Dfg and a function executing one HugrBuilder event on the real builders"""
+    """A fresh root builder and a function executing one HugrBuilder event on the real builders.
+    Node identities are never assumed: `ids` maps the specification's node numbers to the handles the implementation *returned*
+    (the specification numbers nodes in its own creation order; an implementation that creates them in another order is still followed)."""
     from hugr import val
     from hugr.build.dfg import Dfg
     if root_inputs == "module":
         from hugr.build.function import Module
         d = Module()
+        ids = {0: d.hugr.root}
+        nxt = [1]
     else:
         d = Dfg(*[W.build_type(t) for t in root_inputs])
-    builders = {0: d}
+        ids = {0: d.parent_node, 1: d.input_node, 2: d.output_node}
+        nxt = [3]
+    builders = {0: d}          # specification's number of the container / conditional / CFG -> builder object
     h = d.hugr
-    handles = {}
+    handles = {}               # specification's node number -> handle returned for it (C16 b)
     conds = []
     cfgs = []
 
     def wire(w):
-        from hugr.hugr.node_port import Node
-        return Node(w[0]).out(w[1])
+        return ids[w[0]].out(w[1])
+
+    def fresh(k):
+        n = nxt[0]
+        nxt[0] += k
+        return n
+
+    def preorder(node):        # the subtree below `node` in hierarchy pre-order (children in child order), read through the public API
+        out, stack = [], [node]
+        while stack:
+            x = stack.pop()
+            out.append(x)
+            stack.extend(reversed(list(h.children(x))))
+        return out
+
+    def map_subtree(n, node):  # the specification numbers a freshly created subtree in pre-order from n
+        for j, x in enumerate(preorder(node)):
+            ids.setdefault(n + j, x)
+
+    def df_builder(n, nb):     # a dataflow container: node, Input, Output
+        ids[n], ids[n + 1], ids[n + 2] = nb.parent_node, nb.input_node, nb.output_node
+        builders[n] = nb
+
     def step(ev):
         b = builders[ev["ctx"]]
         a = ev["a"]
@@ -110,104 +140,112 @@ def make_stepper(root_inputs):
             ws = [wire(w) for w in ev["args"]]
             how = (len(h) + len(ws)) % 3          # the three spellings of the same call: add_op(op, *wires), add(op(*wires)), extend(op(*wires))
             if how == 0:
-                n = b.add_op(op_of(ev["op"]), *ws)
+                nd = b.add_op(op_of(ev["op"]), *ws)
             elif how == 1:
-                n = b.add(op_of(ev["op"])(*ws))
+                nd = b.add(op_of(ev["op"])(*ws))
             else:
-                (n,) = b.extend(op_of(ev["op"])(*ws))
-            handles[n.idx] = n
-        elif a == "Load":
-            n = b.load(val.TRUE)
-            handles[n.idx] = n
+                (nd,) = b.extend(op_of(ev["op"])(*ws))
+            n = fresh(1)
+            ids[n] = handles[n] = nd
+        elif a in ("Load", "LoadUnit"):
+            nd = b.load(val.TRUE if a == "Load" else val.Unit)
+            n = fresh(2)                          # the specification numbers the Const n and the LoadConstant n + 1
+            ids[n + 1] = handles[n + 1] = nd
+            src = [p.node for p in h.linked_ports(nd.inp(0))]
+            if len(src) == 1:
+                ids[n] = src[0]
         elif a == "AddNested":
             nb = b.add_nested(*[wire(w) for w in ev["args"]])
-            builders[nb.parent_node.idx] = nb
+            df_builder(fresh(3), nb)
         elif a == "AddStateOrder":
-            from hugr.hugr.node_port import Node
-            b.add_state_order(Node(ev["x"]), Node(ev["y"]))
-        elif a == "AddConditional":
-            cb = b.add_conditional(*[wire(w) for w in ev["args"]])
-            builders[cb.parent_node.idx] = cb
-            conds.append(cb)
+            b.add_state_order(ids[ev["x"]], ids[ev["y"]])
+        elif a in ("AddConditional", "AddIf"):
+            n = fresh(7)
+            if a == "AddConditional":
+                cb = b.add_conditional(*[wire(w) for w in ev["args"]])
+                builders[n] = cb
+                conds.append((n, cb))
+                ids[n] = cb.parent_node
+                map_subtree(n, cb.parent_node)     # all Case / Input / Output triples exist from the start
+            else:
+                if_ = b.add_if(*[wire(w) for w in ev["args"]])
+                builders[n] = if_                  # the else branch is started from the If builder
+                conds.append((n, if_._parent_conditional()))
+                ids[n] = if_.conditional_node
+                map_subtree(n, if_.conditional_node)
+                df_builder(n + 4, if_)             # add_if starts case 1 = the second Case triple
+        elif a == "AddCase":
+            case = b.add_else() if hasattr(b, "add_else") else b.add_case(ev["i"])
+            df_builder(ev["ctx"] + 1 + 3 * ev["i"], case)
+        elif a == "AddTailLoop":
+            nb = b.add_tail_loop([wire(w) for w in ev["just"]], [wire(w) for w in ev["rest"]])
+            df_builder(fresh(3), nb)
         elif a == "DefineFunction":
             fb = b.define_function("f", [W.build_type(t) for t in ev["ins"]], [W.build_type(t) for t in ev["outs"]] if ev["declared"] else None)
-            builders[fb.parent_node.idx] = fb
+            df_builder(fresh(3), fb)
         elif a == "DeclareFunction":
             from hugr import tys
             if ev["poly"]:
                 rv = tys.RowVariable(0, tys.TypeBound.Any)
-                b.declare_function("row_id", tys.PolyFuncType([tys.ListParam(tys.TypeTypeParam(tys.TypeBound.Any))], tys.FunctionType.endo([rv])))
+                nd = b.declare_function("row_id", tys.PolyFuncType([tys.ListParam(tys.TypeTypeParam(tys.TypeBound.Any))], tys.FunctionType.endo([rv])))
             else:
-                b.declare_function("decl", tys.PolyFuncType([], tys.FunctionType.endo([tys.Bool])))
+                nd = b.declare_function("decl", tys.PolyFuncType([], tys.FunctionType.endo([tys.Bool])))
+            ids[fresh(1)] = nd
         elif a == "CallPoly":
             from hugr import tys
-            from hugr.hugr.node_port import Node
             ws = [wire(w) for w in ev["args"]]
             row = [h.port_type(w) for w in ws]
-            n = b.call(Node(ev["f"]), *ws, instantiation=tys.FunctionType.endo(row), type_args=[tys.SequenceArg([t.type_arg() for t in row])])
-            handles[n.idx] = n
+            nd = b.call(ids[ev["f"]], *ws, instantiation=tys.FunctionType.endo(row), type_args=[tys.SequenceArg([t.type_arg() for t in row])])
+            n = fresh(1)
+            ids[n] = handles[n] = nd
         elif a == "Call":
-            from hugr.hugr.node_port import Node
-            n = b.call(Node(ev["f"]), *[wire(w) for w in ev["args"]])
-            handles[n.idx] = n
+            nd = b.call(ids[ev["f"]], *[wire(w) for w in ev["args"]])
+            n = fresh(1)
+            ids[n] = handles[n] = nd
         elif a == "LoadFunction":
-            from hugr.hugr.node_port import Node
-            b.load_function(Node(ev["f"]))           # (C16 does not list load_function: its handle has no known count)
-        elif a == "LoadUnit":
-            n = b.load(val.Unit)
-            handles[n.idx] = n
+            ids[fresh(1)] = b.load_function(ids[ev["f"]])           # (C16 does not list load_function: its handle has no known count)
         elif a == "AddCfg":
             cb = b.add_cfg(*[wire(w) for w in ev["args"]])
-            builders[cb.parent_node.idx] = cb
-            cfgs.append(cb)
+            n = fresh(5)                           # CFG n, entry block n + 1 (Input n + 2, Output n + 3), exit block n + 4
+            builders[n] = cb
+            cfgs.append((n, cb))
+            ids[n], ids[n + 1], ids[n + 4] = cb.parent_node, cb.entry, cb.exit
+            map_subtree(n + 1, cb.entry)           # the entry block's Input and Output exist from the start
         elif a == "AddEntry":
-            blk = b.add_entry()
-            builders[blk.parent_node.idx] = blk
+            df_builder(ev["ctx"] + 1, b.add_entry())
         elif a == "AddBlock":
-            blk = b.add_block(*[W.build_type(t) for t in ev["row"]])
-            builders[blk.parent_node.idx] = blk
+            df_builder(fresh(3), b.add_block(*[W.build_type(t) for t in ev["row"]]))
         elif a == "AddSuccessor":
-            from hugr.hugr.node_port import Node
-            blk = b.add_successor(Node(ev["b"]).out(ev["i"]))
-            builders[blk.parent_node.idx] = blk
+            df_builder(fresh(3), b.add_successor(ids[ev["b"]].out(ev["i"])))
         elif a == "Branch":
-            from hugr.hugr.node_port import Node
-            b.branch(Node(ev["b"]).out(ev["i"]), Node(ev["dst"]))
+            b.branch(ids[ev["b"]].out(ev["i"]), ids[ev["dst"]])
         elif a == "BranchExit":
-            from hugr.hugr.node_port import Node
-            b.branch_exit(Node(ev["b"]).out(ev["i"]))
+            b.branch_exit(ids[ev["b"]].out(ev["i"]))
         elif a == "Insert":
             t = build_template(ev["t"])
             ws = [wire(w) for w in ev["args"]]
             if ev["t"] in ("id", "nestext"):
-                n = b.insert_nested(t, *ws)
+                nd = b.insert_nested(t, *ws)
             elif ev["t"] == "loop":
-                n = b.insert_tail_loop(t, ws[:1], ws[1:])
+                nd = b.insert_tail_loop(t, ws[:1], ws[1:])
             elif ev["t"] == "cond":
-                n = b.insert_conditional(t, *ws)
+                nd = b.insert_conditional(t, *ws)
             else:
-                n = b.insert_cfg(t, *ws)
-            handles[n.idx] = n
-        elif a == "AddTailLoop":
-            nb = b.add_tail_loop([wire(w) for w in ev["just"]], [wire(w) for w in ev["rest"]])
-            builders[nb.parent_node.idx] = nb
-        elif a == "AddIf":
-            if_ = b.add_if(*[wire(w) for w in ev["args"]])
-            builders[if_.parent_node.idx] = if_
-            builders[if_.conditional_node.idx] = if_            # the else branch is started from the If builder
-            conds.append(if_._parent_conditional())
-        elif a == "AddCase":
-            case = b.add_else() if hasattr(b, "add_else") else b.add_case(ev["i"])
-            builders[case.parent_node.idx] = case
+                nd = b.insert_cfg(t, *ws)
+            n = fresh(TEMPLATE_SIZE[ev["t"]])
+            ids[n] = handles[n] = nd
+            map_subtree(n, nd)                     # (every template's index order is its hierarchy pre-order)
         elif a == "SetOutputs":
             b.set_outputs(*[wire(w) for w in ev["args"]])
+            ids[ev["ctx"]] = b.parent_node          # (set_outputs may hand out a new handle for the container)
             if type(b).__name__ not in ("Case", "If", "Else", "Function", "Block"):      # C16 names dataflow graph, CFG, conditional and tail-loop builders
-                handles[b.parent_node.idx] = b.parent_node
+                handles[ev["ctx"]] = b.parent_node
         else:
             raise MachineryError(f"unknown builder action {a}")
+
     def finish():
-        for cb in conds + cfgs:
-            handles[cb.parent_node.idx] = cb.parent_node
+        for n, cb in conds + cfgs:
+            handles[n] = ids[n] = cb.parent_node
         return h, handles
     return step, finish, builders, h
 
@@ -282,6 +320,7 @@ def run(ctx: Ctx, wd, handles_only: bool = False, only_feature: str | None = Non
     # ---- S->C: every distinct finished state
     ROOTS = {"RootBQ": [{"t": "Sum", "s": "Unit", "size": 2}, {"t": "Q"}], "RootB": [{"t": "Sum", "s": "Unit", "size": 2}], "Module": "module"}
     cur_root = ["RootBQ"]
+    drift = []
     guard = [0]
     n = [0]
     feats = Counter()
@@ -351,16 +390,24 @@ def run(ctx: Ctx, wd, handles_only: bool = False, only_feature: str | None = Non
         exp = ln["doc"]
         en = [norm_node(x) for x in exp["nodes"]]
         on = [norm_node(x) for x in doc["nodes"]]
-        if en != on and not handles_only:
-            k2 = next((i for i, (a, b) in enumerate(zip(en, on)) if a != b), min(len(en), len(on)))
-            ctx.violation(dict(sig, clauses="nodes"), {"hist": hist}, en[k2] if k2 < len(en) else None, on[k2] if k2 < len(on) else None,
-                          clause=f"HugrBuilder!Doc.nodes[{k2}]", leg="S2C")
-            return
         ee = Counter(json.dumps(e) for e in exp["edges"])
         oe = Counter(json.dumps(e) for e in doc["edges"])
-        if ee != oe and not handles_only:
-            ctx.violation(dict(sig, clauses="edges"), {"hist": hist}, sorted((ee - oe).elements())[:4], sorted((oe - ee).elements())[:4],
-                          clause="HugrBuilder!Doc.edges", leg="S2C")
+        if (en != on or ee != oe) and not handles_only:
+            # The implementation's document is not the one the state machine predicts. That alone is a conformance difference, not a
+            # violation: the properties do not fix node numbering. C08 (insertions) requires the two to agree up to renumbering; C01
+            # requires the implementation's document to be valid - it is handed to TLC (DocCheck) after the run.
+            feats["differs-from-model-document"] += 1
+            if only_feature == "insert":
+                ce, cee = _canonical(en, [x["parent"] for x in exp["nodes"]], exp["edges"])
+                co, coe = _canonical(on, [x["parent"] for x in doc["nodes"]], doc["edges"])
+                if ce != co or cee != coe:
+                    k2 = next((i for i, (a, b) in enumerate(zip(ce, co)) if a != b), None)
+                    ctx.violation(dict(sig, clauses="nodes" if k2 is not None else "edges"), {"hist": hist},
+                                  ce[k2] if k2 is not None else sorted((cee - coe).elements())[:4], co[k2] if k2 is not None else sorted((coe - cee).elements())[:4],
+                                  clause="HugrBuilder!Doc up to renumbering (inserted copy, attached wires)", leg="S2C")
+                return
+            if len(drift) < 400:
+                drift.append((f"model:{cur_root[0]}:{len(drift)}", doc, hist, {"nodes": en != on, "edges": ee != oe}))
             return
         if any(e[0][1] >= 1 and e[1][1] >= 0 for e in exp["edges"]) and "AddNested" in acts:
             feats["ext-or-order"] += 1
@@ -438,6 +485,16 @@ def run(ctx: Ctx, wd, handles_only: bool = False, only_feature: str | None = Non
     ctx.note("builder_model_walk_programs_replayed", len(seen_walks))
     if sims and not feats["walk>=10 calls"]:
         raise MachineryError("builder model: simulation produced no finished program of >= 10 calls")
+    if drift:
+        from ..docs import judge
+        verdicts, resj = judge([(nm, dd) for nm, dd, _, _ in drift], wd, "drift", timeout=3000)
+        ctx.add_tlc(f"C2S documents that differ from HugrBuilder!Doc judged by HugrValidity ({len(drift)})", resj)
+        for nm, dd, hh, what in drift:
+            f = sorted(verdicts[nm]["failing"])
+            if f:
+                ctx.violation({"source": "builder-model", "root": nm.split(":")[1], "last": hh[-1]["a"], "clauses": "+".join(f)}, {"hist": hh, "document": dd},
+                              "the serialized HUGR is valid", f, clause="HugrValidity!" + f[0], leg="S2C")
+        ctx.note("builder_model_documents_differing_from_model", {"count": feats["differs-from-model-document"], "judged": len(drift)})
     ctx.note("builder_model_comparison_guard_cases", guard[0])
     ctx.note("builder_model_finished_states_replayed", n[0])
     ctx.note("builder_model_features", dict(feats))
@@ -446,6 +503,28 @@ def run(ctx: Ctx, wd, handles_only: bool = False, only_feature: str | None = Non
              "insert:cond", "insert:cfg", "if-else", "module-root", "row-poly-call"))
     if n[0] < 50 or not all(feats[f] for f in need):
         raise MachineryError(f"builder model: only {n[0]} finished states, features {dict(feats)}")
+
+
+def _canonical(nodes_norm, parents, edges):
+    """relabel by pre-order of the hierarchy (children in document order): (ops with canonical parents, edge bag)"""
+    kids = {i: [] for i in range(len(parents))}
+    for i, p in enumerate(parents):
+        if i != 0 and 0 <= p < len(parents):
+            kids[p].append(i)
+    order, stack = [], [0]
+    while stack:
+        x = stack.pop()
+        order.append(x)
+        stack.extend(reversed(kids[x]))
+    new = {old: k for k, old in enumerate(order)}
+    out = []
+    for old in order:
+        nd = dict(nodes_norm[old]) if isinstance(nodes_norm[old], dict) else nodes_norm[old]
+        if isinstance(nd, dict):
+            nd["parent"] = new.get(parents[old], -1)
+        out.append(nd)
+    eb = Counter(json.dumps([[new.get(e[0][0], -1), e[0][1]], [new.get(e[1][0], -1), e[1][1]]]) for e in edges)
+    return out, eb
 
 
 def nodes_parent_is_case(doc, idx):
